@@ -79,7 +79,7 @@ Section svc.
 
   Lemma talk_inv_step w s s' : wf s -> talk_inv s -> step_inv fx w s s' -> talk_inv s'.
   Proof.
-    intros Hwf Hti [t a e ok a' os ob Ha Hst Hact Hh Hmsg Herr Hm _ _ _ _ (Hph & HuB & HuS & Hsv & _) _ _
+    intros Hwf Hti [t a e ok a' os ob Ha Hst Hact Hh Hmsg Herr Hm _ _ _ _ (Hph & HuB & HuS & Hsv & _) _ _ _
                    |Hact Hib Hh _ Hrq Hrs|ts _ Hact Hib Hh Hrq _ (Hph & HuB & HuS & Hsv & _) _].
     - destruct (Hwf t a Ha) as [Hid Hg].
       destruct (step_same_id _ _ _ _ _ _ _ Hst) as (Hi' & Hk' & Hd').
